@@ -1,3 +1,4 @@
 pub mod c06;
 pub mod c10;
 pub mod c11;
+pub mod c15;
